@@ -84,8 +84,10 @@ def main_path(node, what, neutral=()):
     effs = []
     while True:
         while node[0] == "eff":
-            if not (is_neutral(node[1], VALIDATION_NEUTRAL) or is_neutral(node[1], neutral)):
-                effs.append(node[1])
+            e = node[1]
+            empty_loop = e[0] == "for" and straight_or_none(e[3]) == []      # a loop that only filled a list
+            if not (is_neutral(e, VALIDATION_NEUTRAL) or is_neutral(e, neutral) or empty_loop):
+                effs.append(e)
             node = node[2]
         if node[0] != "if":
             return effs, node
@@ -96,6 +98,16 @@ def main_path(node, what, neutral=()):
             node = node[2]
         else:
             _fail("%s: unexpected branching on %s" % (what, show(node[1])))
+
+
+def straight_or_none(node):
+    """the non-neutral effects of a loop body without branching, or None"""
+    out = []
+    while node[0] == "eff":
+        if not is_neutral(node[1], VALIDATION_NEUTRAL):
+            out.append(node[1])
+        node = node[2]
+    return out if node[0] in ("end", "cont") else None
 
 
 def _only_raises(node):
@@ -119,7 +131,14 @@ def _ret(ctx, name, params, what, neutral=()):
     if term[0] != "ret":
         _fail("%s: must return a value" % what)
     used = set(_subterms(term[1]))
-    effs = [e for e in effs if e not in used]          # calls whose results make up the value are not effects
+    def feeds_value(e):
+        if e in used:
+            return True
+        if e[0] == "for":                 # a loop that only computed the elements of a list in the value
+            b = straight_or_none(e[3])
+            return b is not None and all(x in used for x in b)
+        return False
+    effs = [e for e in effs if not feeds_value(e)]     # calls whose results make up the value are not effects
     if effs:
         _fail("%s: unexpected operations %s" % (what, [show(e)[:80] for e in effs]))
     return term[1]
@@ -130,10 +149,14 @@ def _ret(ctx, name, params, what, neutral=()):
 
 def _members(t, what):
     """Parallel(...)(member(i) for i in range(self.n_estimators)) -> (member term, variable)"""
-    if not (t[0] == "call" and t[1][0] == "call" and fn_of(t[1]) == "Parallel" and len(t[2]) == 1 and not t[3]
-            and t[2][0][0] == "comp"):
-        _fail("%s: the members must be computed by Parallel(...)(<one call per member>)" % what, t)
-    _, elt, var, it = t[2][0]
+    if t[0] == "comp":
+        comp = t
+    elif t[0] == "call" and t[1][0] == "call" and fn_of(t[1]) == "Parallel" and len(t[2]) == 1 and not t[3] \
+            and t[2][0][0] == "comp":
+        comp = t[2][0]
+    else:
+        _fail("%s: the members must be computed one call per member (Parallel(...)(...) or a comprehension)" % what, t)
+    _, elt, var, it = comp
     if it != ("call", ("global", "range"), (sattr("n_estimators"),), ()):
         _fail("%s: one member per i in range(self.n_estimators) expected" % what, it)
     return elt, var
@@ -164,13 +187,18 @@ def _comb(t, rows_term, what, k="k"):
     _fail("%s: combination expression" % what, t)
 
 
-def _forest(ctx, cls, what, member_of):
+def _forest(ctx, cls, what, member_of, found=None):
     """<cls>.predict_proba / predict -> combination text; member_of(variable) = the expected member term"""
     v = _ret(ctx, "predict_proba" if cls != "reg" else "predict", ["X"], what)
     rows = [x for x in _subterms(v) if x[0] == "call" and x[1][0] == "call" and fn_of(x[1]) == "Parallel"]
+    if not rows:
+        rows = [x for x in _subterms(v) if x[0] == "comp"
+                and x[3] == ("call", ("global", "range"), (sattr("n_estimators"),), ())]
     if len(set(rows)) != 1:
-        _fail("%s: exactly one Parallel(...)(...) of members expected" % what, v)
+        _fail("%s: exactly one list of members (one per i in range(self.n_estimators)) expected" % what, v)
     elt, var = _members(rows[0], what)
+    if found is not None:
+        found["elt"] = elt
     want = member_of(var)
     if elt != want:
         _fail("%s: member i is %s, expected %s" % (what, show(elt), show(want)))
@@ -216,13 +244,17 @@ def _decode(ctx, what):
 
 # ------------------------------------------------------------------------------------------------
 
-def _stsf_place(ctx):
-    node = collapse(_run(ctx, "_predict_proba_for_estimator", ["X", "X_p", "X_d", "intervals", "estimator"],
-                         "_predict_proba_for_estimator"))
-    est = ("param", "estimator")
+def _stsf_place(ctx, name, est_param):
+    """the method SupervisedTimeSeriesForest.predict_proba evaluates per tree (found through the
+    member term, whatever it is called) -> where the tree's columns go"""
+    fn = ctx.method(name)
+    params, _ = _params(fn, True)
+    node = collapse(_run(ctx, name, params, "the per-tree method of SupervisedTimeSeriesForest"))
+    est = ("param", est_param)
     paths = []
     for effs, conds, term in leaves(node):
-        effs = [e for e in effs if not is_neutral(e, VALIDATION_NEUTRAL | {"self._transform", "estimator.predict_proba"})]
+        effs = [e for e in effs if not is_neutral(e, VALIDATION_NEUTRAL | {"self._transform"})
+                and not (e[0] == "call" and e[1] == ("attr", est, "predict_proba"))]
         paths.append((effs, conds, term))
     raw = None
     for effs, conds, term in paths:
@@ -346,13 +378,17 @@ def _votes(ctx, what, weighted):
     if [e for e in beffs if e[0] != "for" and e != preds] or len(inner) != 1:
         _fail("%s: a member votes with its own predict(X), once per instance" % what)
     _, it2, tgt2, body2, lv2 = inner[0]
-    if it2 not in (("call", ("global", "range"), (n_inst,), ()), ("call", ("global", "range"), (C(0), n_inst), ())):
+    if it2 in (("call", ("global", "range"), (n_inst,), ()), ("call", ("global", "range"), (C(0), n_inst), ())):
+        row_i, label_i = lv2, ("sub", preds, lv2)
+    elif it2 == ("call", ("global", "enumerate"), (preds,), ()) and isinstance(tgt2, tuple) and len(tgt2) == 2:
+        row_i, label_i = ("proj", lv2, 0, 2), ("proj", lv2, 1, 2)          # (i, preds[i])
+    else:
         _fail("%s: the votes must be counted for every instance of X" % what, it2)
     ieffs, iterm = straight(body2, what + " instance loop", neutral=VALIDATION_NEUTRAL)
     if len(ieffs) != 1 or ieffs[0][0] != "augitem" or ieffs[0][3] != "Add":
         _fail("%s: one `votes[i, column] += increment` per member and instance expected" % what)
     _, table, idx, _op, inc = ieffs[0]
-    want_idx = ("tuple", (lv2, ("sub", sattr("class_dictionary"), ("sub", preds, lv2))))
+    want_idx = ("tuple", (row_i, ("sub", sattr("class_dictionary"), label_i)))
     if idx != want_idx:
         _fail("%s: the vote of a member must go to column class_dictionary[its predicted label] of row i" % what, idx)
     if not (fn_of(table) == "np.zeros" and list(table[2]) == [("tuple", (n_inst, sattr("n_classes")))] and not table[3]):
@@ -455,8 +491,12 @@ def _colens(ctx, mod):
         _fail("column ensemble: the members' rows must come from one comprehension over the members", v)
     comp = comps[0]
     _, elt, var, it = comp
-    if it != ("call", sattr("_iter"), (), (("replace_strings", C(True)),)):
-        _fail("column ensemble: the members are self._iter(replace_strings=True)", it)
+    # the members: a generator method of the class (whatever its name) called with its flag set
+    if not (it[0] == "call" and it[1][0] == "attr" and it[1][1] == SELF and it[1][2] in ctx.methods
+            and list(it[2]) + [v for _k, v in it[3]] == [C(True)]):
+        _fail("column ensemble: the members must come from a generator method of the class, called with its "
+              "replace-strings flag set", it)
+    ctx.members_generator = it[1][2]
     est, col = ("proj", var, 1, 3), ("proj", var, 2, 3)
     want = ("call", ("attr", est, "predict_proba"), (("call", ("global", "_get_column"), (X, col), ()),), ())
     if elt != want:
@@ -476,6 +516,80 @@ def _colens(ctx, mod):
             _attr_assignments(mod, "BaseColumnEnsembleClassifier", "classes_") != ["self.le_.classes_"]:
         _fail("column ensemble fit: le_ = LabelEncoder().fit(y); classes_ = le_.classes_ expected")
     return txt
+
+
+def _colens_iter(ctx, gen_name):
+    """BaseColumnEnsembleClassifier._iter: which entries are handed out -> (decision tree over
+    replace_strings / estimator == 'drop' / empty column selection, does a fitted ensemble iterate
+    over estimators_ only)"""
+    ctx.primitives.discard(gen_name)
+    params, _d = _params(ctx.method(gen_name), True)
+    if len(params) != 1:
+        _fail("the members' generator of the column ensemble must have one parameter (the flag)", ctx.method(gen_name))
+    R = ("param", params[0])
+    node = _run(ctx, gen_name, params, "column ensemble _iter")
+    loops = []                       # (path conditions, iterable, body, loop variable)
+
+    def walk(n, conds):
+        while n[0] == "eff":
+            e = n[1]
+            if e[0] == "for":
+                loops.append((list(conds), e[1], e[3], e[4]))
+            elif not is_neutral(e, VALIDATION_NEUTRAL | {"chain"}) and e[0] != "for":
+                _fail("column ensemble _iter: unexpected operation", e)
+            n = n[2]
+        if n[0] == "if":
+            walk(n[2], conds + [(n[1], True)])
+            walk(n[3], conds + [(n[1], False)])
+        elif n[0] != "ret":
+            _fail("column ensemble _iter: unexpected control flow")
+    walk(node, [])
+    if not loops or len({(repr(b), repr(lv)) for _c, _i, b, lv in loops}) != 1:
+        _fail("column ensemble _iter: one loop that hands the entries out expected (the same on every path)")
+    fitted = ("attr", SELF, "is_fitted")
+    fitted_ok = None
+    for conds, it, _b, _lv in loops:
+        cd = dict(conds)
+        if fitted not in cd:
+            _fail("column ensemble _iter: the entries iterated over must depend on self.is_fitted")
+        if cd[fitted]:
+            ok = it == sattr("estimators_")
+            fitted_ok = ok if fitted_ok is None else (fitted_ok and ok)
+    if fitted_ok is None:
+        _fail("column ensemble _iter: no path for a fitted ensemble")
+    body, lv = loops[0][2], loops[0][3]
+    est, col = ("proj", lv, 1, 3), ("proj", lv, 2, 3)
+    atoms = {R: "replace", ("cmp", "eq", est, C("drop")): "is_drop",
+             ("call", ("global", "_is_empty_column_selection"), (col,), ()): "is_empty"}
+    whole = ("tuple", (("proj", lv, 0, 3), est, col))
+
+    def cond(c):
+        if c in atoms:
+            return atoms[c]
+        if c[0] == "not":
+            return "(negb %s)" % cond(c[1])
+        if c[0] in ("and", "or"):
+            return "(" + (" && " if c[0] == "and" else " || ").join(cond(x) for x in c[1]) + ")"
+        if c[0] == "cmp" and c[1] == "ne" and ("cmp", "eq", c[2], c[3]) in atoms:
+            return "(negb %s)" % atoms[("cmp", "eq", c[2], c[3])]
+        _fail("column ensemble _iter: condition", c)
+
+    def tree(n, yielded):
+        while n[0] == "eff":
+            e = n[1]
+            if e[0] == "yield":
+                if e[1] != whole or yielded:
+                    _fail("column ensemble _iter: an entry must be handed out once, as it is", e[1])
+                yielded = True
+            elif not is_neutral(e, {"_is_empty_column_selection"}):
+                _fail("column ensemble _iter: unexpected operation in the loop", e)
+            n = n[2]
+        if n[0] == "if":
+            return "(if %s then %s else %s)" % (cond(n[1]), tree(n[2], yielded), tree(n[3], yielded))
+        if n[0] in ("cont", "end"):
+            return "true" if yielded else "false"
+        _fail("column ensemble _iter: unexpected control flow in the loop")
+    return tree(body, False), fitted_ok
 
 
 def _base(ctx):
@@ -644,12 +758,12 @@ def translate(repo):
     boss, cboss, base, fbase = mod(P_BOSS), mod(P_CBOSS), mod(P_BASE), mod(P_FBASE)
     fb = [(fbase, "BaseTimeSeriesForest")]
     prim = {"predict_proba", "predict", "fit", "_transform", "_get_intervals", "_fit_estimator", "score",
-            "_predict_proba_for_estimator", "_iter", "_train_predict", "_test_nn", "_collect_probas_never"}
+            "_train_predict", "_test_nn"}
 
     def est(i):
         return ("sub", sattr("estimators_"), i)
     # time series forest
-    ctx = Ctx(tsf, "TimeSeriesForestClassifier", primitives=prim, hook=_hook, bases=fb)
+    ctx = Ctx(tsf, "TimeSeriesForestClassifier", primitives=prim, hook=_hook, bases=fb, sig_mods=[fbase])
     tsf_c, ty = _forest(ctx, "clf", "TimeSeriesForestClassifier", lambda i: (
         "call", ("attr", est(i), "predict_proba"),
         (("call", ("global", "_transform"), (X, ("sub", sattr("intervals_"), i)), ()),), ()))
@@ -657,20 +771,35 @@ def translate(repo):
     # supervised time series forest
     ctx = Ctx(stsf, "SupervisedTimeSeriesForest", primitives=prim, hook=_hook)
     per = ("call", ("attr", ("global", "signal"), "periodogram"), (X,), ())
-    stsf_c, ty = _forest(ctx, "clf", "SupervisedTimeSeriesForest", lambda i: (
-        "call", sattr("_predict_proba_for_estimator"),
-        (X, ("proj", per, 1, 2), ("call", ("attr", ("global", "np"), "diff"), (X, C(1)), ()),
-         ("sub", sattr("intervals_"), i), est(i)), ()))
+    found = {}
+
+    def stsf_member(i):
+        """tree i through ONE method of the class, given the series, its periodogram, its first
+        difference, the tree's intervals and the tree (in the order of that method's parameters)"""
+        elt = found["elt"]
+        if not (elt[0] == "call" and elt[1][0] == "attr" and elt[1][1] == SELF and elt[1][2] in ctx.methods and not elt[3]):
+            _fail("SupervisedTimeSeriesForest: member i must be computed by a method of the class", elt)
+        want = {X, ("proj", per, 1, 2), ("call", ("attr", ("global", "np"), "diff"), (X, C(1)), ()),
+                ("sub", sattr("intervals_"), i), est(i)}
+        if set(elt[2]) != want or len(elt[2]) != 5:
+            _fail("SupervisedTimeSeriesForest: tree i must get X, its periodogram, its difference, intervals_[i] and "
+                  "estimators_[i]", elt)
+        names, _d = _params(ctx.methods[elt[1][2]], True)
+        found["name"], found["est_param"] = elt[1][2], names[list(elt[2]).index(est(i))]
+        found["iv_param"] = names[list(elt[2]).index(("sub", sattr("intervals_"), i))]
+        return elt
+    stsf_c, ty = _forest(ctx, "clf", "SupervisedTimeSeriesForest", stsf_member, found)
     stsf_p = _decode(ctx, "SupervisedTimeSeriesForest")
-    stsf_place = _stsf_place(Ctx(stsf, "SupervisedTimeSeriesForest", primitives=prim - {"_predict_proba_for_estimator"}, hook=_hook))
+    stsf_place = _stsf_place(Ctx(stsf, "SupervisedTimeSeriesForest", primitives=prim,
+                                 hook=_hook), found["name"], found["est_param"])
     # RISE
-    ctx = Ctx(rise, "RandomIntervalSpectralForest", primitives=prim - {"_predict_proba_for_estimator"}, hook=_hook)
+    ctx = Ctx(rise, "RandomIntervalSpectralForest", primitives=prim, hook=_hook)
     rise_c, ty = _forest(ctx, "clf", "RandomIntervalSpectralForest", lambda i: (
         "call", ("attr", est(i), "predict_proba"),
         (("call", ("global", "_transform"), (X, ("sub", sattr("intervals"), i), ("sub", sattr("lags"), i)), ()),), ()))
     rise_p = _decode(ctx, "RandomIntervalSpectralForest")
     # forest regressor
-    ctx = Ctx(reg, "TimeSeriesForestRegressor", primitives=prim, hook=_hook, bases=fb)
+    ctx = Ctx(reg, "TimeSeriesForestRegressor", primitives=prim, hook=_hook, bases=fb, sig_mods=[fbase])
     reg_c, ty = _forest(ctx, "reg", "TimeSeriesForestRegressor", lambda i: (
         "call", ("attr", est(i), "predict"),
         (("call", ("global", "_transform"), (X, ("sub", sattr("intervals_"), i)), ()),), ()))
@@ -681,7 +810,12 @@ def translate(repo):
         reg_c = "(qsum preds / %s)" % m.group(1)        # one instance: a row of width 1
     if "rows" in reg_c or "map" in reg_c:
         _fail("forest regressor: combination %s" % reg_c)
-    col_c = _colens(Ctx(col, "BaseColumnEnsembleClassifier", primitives=prim | {"_get_column"}, hook=_hook), col)
+    cctx = Ctx(col, "BaseColumnEnsembleClassifier", primitives=prim | {"_get_column"}, hook=_hook)
+    cctx.primitives |= {n for n, f in cctx.methods.items() if symexec_c19._is_generator(f)}   # examined separately
+    col_c = _colens(cctx, col)
+    col_y, col_f = _colens_iter(Ctx(col, "BaseColumnEnsembleClassifier",
+                                    primitives=prim | {"_get_column", "_is_empty_column_selection"},
+                                    hook=_hook), cctx.members_generator)
     boss_c = _votes(Ctx(boss, "BOSSEnsemble", primitives=prim, hook=_hook), "BOSSEnsemble", False)
     _class_dictionary_facts(boss, "BOSSEnsemble", "BOSSEnsemble", {"n_estimators": "len(self.classifiers)"})
     cboss_c = _votes(Ctx(cboss, "ContractableBOSS", primitives=prim, hook=_hook), "ContractableBOSS", True)
@@ -706,6 +840,12 @@ def translate(repo):
            "Definition gen_rise_combine (k : nat) (rows : list (list Q)) : list Q := %s." % rise_c,
            "Definition gen_colens_combine (k : nat) (rows : list (list Q)) : list Q := %s." % col_c,
            "Definition gen_tsfreg_combine (preds : list Q) : Q := %s." % reg_c,
+           "",
+           "(* BaseColumnEnsembleClassifier._iter: is an entry of the list handed out?  replace =",
+           "   replace_strings, is_drop = (estimator == 'drop'), is_empty = _is_empty_column_selection(column) *)",
+           "Definition gen_colens_yields (replace is_drop is_empty : bool) : bool := %s." % col_y,
+           "(* a fitted ensemble iterates over estimators_ and nothing else *)",
+           "Definition gen_colens_fitted_iterates_fitted_only : bool := %s." % ("true" if col_f else "false"),
            "",
            "(* ContractableBOSS.fit: the weight of a member with leave-one-out train accuracy `acc` *)",
            "Definition gen_cboss_weight (acc : Q) : Q := %s." % cboss_w,
